@@ -203,7 +203,7 @@ impl Engine for TwinSim {
         let mode = rng.below(4);
         let subprocess = rng.chance(1, 5);
         // rarely: let more than a second of real time pass between the twins (sequential schedule)
-        let skew_ms: u32 = if rng.chance(1, 120) { 1100 } else { 0 };
+        let skew_ms: u32 = if rng.chance(1, 50) { 1100 } else { 0 };
         let mode = if skew_ms > 0 { 0 } else { mode };
         let gen_sched = |rng: &mut Rng, n: usize| -> Vec<u8> {
             match mode {
